@@ -34,7 +34,7 @@ type VerifC12BatchObs struct {
 // VerifC12HangWindow: how long the batch may take before it is declared hung. A correct run
 // takes milliseconds; the window only decides how long a run that will never finish is waited
 // for, so it is generous rather than tight.
-const VerifC12HangWindow = 25 * time.Second
+const VerifC12HangWindow = 30 * time.Second
 
 type verifC12Client struct {
 	cases  []*conformancev1.TestCase
